@@ -27,6 +27,29 @@ if os.path.join(VERIF, 'harness') not in sys.path:
 ALLOWED_AXIOMS = {'propext', 'Classical.choice', 'Quot.sound'}
 
 
+class CallTimeout(BaseException):
+    """an implementation call did not return within its time limit (BaseException: the code under test must not be able
+    to swallow it with `except Exception`)"""
+
+
+@contextlib.contextmanager
+def time_limit(seconds):
+    """bound one call into the implementation (main thread only; nested use keeps the outer alarm's remaining time)"""
+    import signal
+
+    def on_alarm(signum, frame):
+        raise CallTimeout(f'no result within {seconds} s')
+    old_handler = signal.signal(signal.SIGALRM, on_alarm)
+    old_left = signal.alarm(int(seconds))
+    try:
+        yield
+    finally:
+        signal.alarm(0)
+        signal.signal(signal.SIGALRM, old_handler)
+        if old_left:
+            signal.alarm(old_left)
+
+
 class Unsupported(Exception):
     """input outside the lexical/numeric domain of the model: counted and skipped, never compared"""
 
